@@ -471,7 +471,7 @@ class JSONPointer:
 
 
 RE_RELATIVE_POINTER = re.compile(
-    r"(?P<ORIGIN>\d+)(?P<INDEX_G>(?P<SIGN>[+\-])(?P<INDEX>\d))?(?P<POINTER>.*)",
+    r"(?P<ORIGIN>\d+)(?P<INDEX_G>(?P<SIGN>[+\-])(?P<INDEX>\d+))?(?P<POINTER>.*)",
     re.DOTALL,
 )
 
